@@ -1,4 +1,4 @@
-(* Kernel ties of family G (merge.go, DataBlockMetadata.OnDiskSize): see Proofs/KernelEquiv.v. *)
+(* Tactics for the kernel ties of family G (merge.go, DataBlockMetadata.OnDiskSize): see Proofs/KernelEquiv.v. *)
 From BS Require Import Lib.Bytes Lib.Wrap64 Lib.GoPrim Generated.Kernels Generated.KernelTie Model.MinMax Model.Validate Model.MergePlan Proofs.KernelEquiv.
 From Coq Require Import ZArith List Bool Lia.
 Import ListNotations.
@@ -13,9 +13,3 @@ Ltac k_open_G :=
   intros; autounfold with go_kernels go_ties in *;
   unfold within in *;
   k_destruct_tuples; k_beta; k_proj_G.
-
-Lemma k_on_disk_size_tie : tie_on_disk_size.
-Proof. unfold tie_on_disk_size. first [exact I | k_open_G; k_arith]. Qed.
-
-Lemma k_within_tie : tie_within.
-Proof. unfold tie_within. first [exact I | k_open_G; k_arith]. Qed.
